@@ -51,9 +51,10 @@ def feed (d : DSt) (line : Nat) (e : Event) : DSt × String :=
 
 def flag? (s : String) : Option Bool := if s == "1" then some true else if s == "0" then some false else none
 
-/-- mask = isFloat + 2·isInteger + 4·deg2gon ; value of toIndex -/
+/-- mask = isFloat + 2·isInteger + 4·deg2gon + 8·toDouble ; value of toIndex -/
 def litResult (s : List Char) : String :=
-  let m := (if Lit.isFloat s then 1 else 0) + (if Lit.isInteger s then 2 else 0) + (if Lit.deg2gonAccepts s then 4 else 0)
+  let m := (if Lit.isFloat s then 1 else 0) + (if Lit.isInteger s then 2 else 0) + (if Lit.deg2gonAccepts s then 4 else 0) +
+    (if Lit.toDoubleOk s then 8 else 0)
   let x := match Lit.toIndex s with
     | none => "-"
     | some v => if v ≥ 2147483648 then "big" else toString v
